@@ -91,6 +91,13 @@ type Stream struct {
 	bytesRead     int    // Bytes consumed from current message during decoding
 	totalMsgBytes int    // Total bytes in current message being decoded
 	inMessage     bool   // True if currently decoding a multi-frame message
+	// sendMidMessage/recvMidMessage record whether the last frame sent/received
+	// carried the "more frames follow" flag, i.e. a message is in flight in that
+	// direction even when nothing is buffered here (the typed-message layer and
+	// SendPartialMessage frame messages themselves). ExportCryptoState refuses to
+	// hand off a stream in that state.
+	sendMidMessage bool
+	recvMidMessage bool
 
 	// Timeout settings (matches HTCondor's Stream timeout behavior)
 	timeout             time.Duration // Socket timeout duration (0 = no timeout)
@@ -276,6 +283,7 @@ func (s *Stream) sendMessageWithEnd(ctx context.Context, data []byte, end byte) 
 	if err := s.writeWithContext(ctx, frame); err != nil {
 		return fmt.Errorf("failed to write frame: %w", err)
 	}
+	s.sendMidMessage = end == EndFlagPartial
 
 	return nil
 }
@@ -321,6 +329,7 @@ func (s *Stream) ReceiveFrame(ctx context.Context) ([]byte, error) {
 			s.recvDigest.Write(header)
 			s.recvDigestWritten = true
 		}
+		s.recvMidMessage = endFlag == EndFlagPartial
 		return []byte{}, nil
 	}
 
@@ -348,6 +357,7 @@ func (s *Stream) ReceiveFrame(ctx context.Context) ([]byte, error) {
 		s.recvDigest.Write(clearData)
 		s.recvDigestWritten = true
 	}
+	s.recvMidMessage = endFlag == EndFlagPartial
 
 	return clearData, nil
 }
@@ -386,6 +396,7 @@ func (s *Stream) ReceiveFrameWithEnd(ctx context.Context) ([]byte, byte, error) 
 			s.recvDigest.Write(header)
 			s.recvDigestWritten = true
 		}
+		s.recvMidMessage = endFlag == EndFlagPartial
 		return []byte{}, endFlag, nil
 	}
 
@@ -413,6 +424,7 @@ func (s *Stream) ReceiveFrameWithEnd(ctx context.Context) ([]byte, byte, error) 
 		s.recvDigest.Write(clearData)
 		s.recvDigestWritten = true
 	}
+	s.recvMidMessage = endFlag == EndFlagPartial
 
 	return clearData, endFlag, nil
 }
@@ -819,6 +831,12 @@ func (s *Stream) ExportCryptoState() ([]byte, error) {
 	}
 	if s.sendEOM {
 		return nil, fmt.Errorf("ExportCryptoState: not at a clean boundary (sendEOM set: outbound message end-of-message pending StartMessage)")
+	}
+	if s.sendMidMessage {
+		return nil, fmt.Errorf("ExportCryptoState: not at a clean boundary (the last frame sent was a partial frame: an outbound message is in progress)")
+	}
+	if s.recvMidMessage {
+		return nil, fmt.Errorf("ExportCryptoState: not at a clean boundary (the last frame received was a partial frame: an inbound message is in progress)")
 	}
 
 	var flags byte
